@@ -32,6 +32,7 @@ type Net struct {
 	now      float64         // virtual time (unit: the election timeout of view 0)
 	deadline map[int]float64 // per correct node: when its election timer fires
 	timely   bool            // stabilised phase: no concurrent cancellations injected
+	pending  []pendingSync
 }
 
 type Flight struct {
@@ -218,7 +219,13 @@ func (net *Net) sync(n *RealNode, h uint64) {
 	net.event(n, fmt.Sprintf("update %d", h), func() (string, string) { return n.Update(b, proof) })
 }
 
+type pendingSync struct {
+	n *RealNode
+	h uint64
+}
+
 type SchedProfile struct {
+	PendingSync                                                                    int // per-mille: a sync whose cancellation (main loop) precedes its delivery to the worker by a few events
 	Drop, Dup, Timeout, StaleTimeout, Sync, Byz, CancelDuring, CommitFail, Reject int // per-mille
 	MaxSteps                                                                       int
 	MaxHeight                                                                      uint64
@@ -247,6 +254,23 @@ func (net *Net) run(p SchedProfile) {
 		}
 		if done {
 			break
+		}
+		// a sync accepted by the main loop earlier reaches the worker
+		if len(net.pending) > 0 && r.Intn(4) == 0 {
+			ps := net.pending[0]
+			net.pending = net.pending[1:]
+			net.sync(ps.n, ps.h)
+			continue
+		}
+		if p.PendingSync > 0 && r.Intn(1000) < p.PendingSync {
+			n := net.order[r.Intn(len(net.order))]
+			if n.Main == nil {
+				h := uint64(n.St.Height()) + uint64(r.Intn(3))
+				net.event(n, fmt.Sprintf("cancel %d 0", h+1), func() (string, string) { return n.CancelAhead(h) })
+				net.pending = append(net.pending, pendingSync{n, h})
+				net.c.Nontrivial("sync/cancelled-ahead")
+				continue
+			}
 		}
 		x := r.Intn(1000)
 		switch {
@@ -305,6 +329,10 @@ func (net *Net) run(p SchedProfile) {
 			}
 		}
 	}
+	for _, ps := range net.pending {
+		net.sync(ps.n, ps.h)
+	}
+	net.pending = nil
 }
 
 
